@@ -2,6 +2,7 @@
 package redis
 
 import (
+	"github.com/samaritan-proxy/samaritan/proc/redis/hotkey"
 	"io"
 	"time"
 
@@ -193,4 +194,34 @@ func VfC01_Split() {
 			nd.Assert(resp.Type == Error, "a failed per-key command fails the DEL-family command")
 		}
 	}
+}
+
+// VfC19_CountedName: the name a command's access is counted under is the key the command names,
+// whole - for short keys and for keys of several hundred bytes (two long keys that differ only in
+// their last byte are two keys) - and commands without a key (EVAL, SCAN, CLUSTER, AUTH) count
+// nothing: the HOTKEY report can then only contain keys that were actually accessed.
+func VfC19_CountedName() {
+	ctr := hotkey.NewCounter(4, nil)
+	f := newHotKeyFilter(ctr)
+	lens := []int{1, 2, 127, 128, 129, 300, 1100}
+	l := lens[nd.Concrete(nd.Choice("keylen", len(lens)))]
+	key := make([]byte, l)
+	for i := range key {
+		key[i] = 'p' // a long common prefix (a namespace) ...
+	}
+	key[l-1] = nd.Byte("last") // ... and an arbitrary last byte
+	other := append([]byte{}, key...)
+	other[l-1] = key[l-1] + 1
+	cmds := []string{"get", "set", "hget", "eval", "scan"}
+	cmd := cmds[nd.Concrete(nd.Choice("cmd", len(cmds)))]
+	nd.PanicLabel("counted-name")
+	f.Do(cmd, newSimpleRequest(newArray(*newBulkString(cmd), *newBulkBytes(key), *newBulkString("x"))))
+	f.Do(cmd, newSimpleRequest(newArray(*newBulkString(cmd), *newBulkBytes(other), *newBulkString("x"))))
+	got := ctr.Latch()
+	if cmd == "eval" || cmd == "scan" {
+		nd.Assert(len(got) == 0, "commands without a key count nothing")
+		return
+	}
+	nd.Assert(len(got) == 2 && got[string(key)] == 1 && got[string(other)] == 1, "an access is counted under the whole key the command names (two keys that differ in their last byte are two keys)")
+	nd.Cover("counted")
 }
